@@ -3,6 +3,9 @@ package main
 import (
 	"fmt"
 	"go/ast"
+	"os"
+	"path/filepath"
+	"sort"
 	"strings"
 )
 
@@ -429,5 +432,425 @@ func extractC17(c *Ctx) error {
 	c.Info("pad", padSize)
 	c.Info("job_fields", jobFields)
 	c.Info("validates_hex", validates)
+	return extractC17Entry(c, kf, bf)
+}
+
+// c17RecvName: receiver type name of a method declaration ("" for a plain function).
+func c17RecvName(fd *ast.FuncDecl) string {
+	if fd.Recv == nil || len(fd.Recv.List) != 1 {
+		return ""
+	}
+	t := fd.Recv.List[0].Type
+	if s, ok := t.(*ast.StarExpr); ok {
+		t = s.X
+	}
+	if ix, ok := t.(*ast.IndexExpr); ok {
+		t = ix.X
+	}
+	if id, ok := t.(*ast.Ident); ok {
+		return id.Name
+	}
+	return ""
+}
+
+// c17CallSites lists, over every non-test, non-generated, non-mock, non-hook Go file of the tree, the
+// functions that contain a call whose callee's last name is one of names: "dir/file.go:Recv.Func -> name".
+// Purely syntactic (by name): a new caller anywhere in the tree shows up, whatever it calls it on.
+func c17CallSites(c *Ctx, names map[string]bool) ([]string, error) {
+	set := map[string]bool{}
+	err := filepath.Walk(c.Repo, func(path string, info os.FileInfo, err error) error {
+		if err != nil {
+			return err
+		}
+		rel, _ := filepath.Rel(c.Repo, path)
+		if info.IsDir() {
+			b := info.Name()
+			if rel != "." && (strings.HasPrefix(b, ".") || b == "tests" || b == "testutil" || b == "mocks" || b == "node_modules" || b == "testdata" || b == "simulation") {
+				return filepath.SkipDir
+			}
+			return nil
+		}
+		if !strings.HasSuffix(rel, ".go") || strings.HasSuffix(rel, "_test.go") || strings.HasSuffix(rel, ".pb.go") || strings.HasSuffix(rel, ".pb.gw.go") ||
+			strings.HasPrefix(filepath.Base(rel), "verif_hooks") || filepath.Base(rel) == "test_common.go" {
+			return nil
+		}
+		src, err := os.ReadFile(path)
+		if err != nil {
+			return err
+		}
+		hit := false
+		for n := range names {
+			if strings.Contains(string(src), n+"(") {
+				hit = true
+			}
+		}
+		if !hit {
+			return nil
+		}
+		f, err := c.Parse(rel)
+		if err != nil {
+			return err
+		}
+		for _, d := range f.Decls {
+			fd, ok := d.(*ast.FuncDecl)
+			if !ok || fd.Body == nil {
+				continue
+			}
+			who := fd.Name.Name
+			if r := c17RecvName(fd); r != "" {
+				who = r + "." + who
+			}
+			for n := range names {
+				if len(Calls(fd.Body, n)) > 0 {
+					set[filepath.ToSlash(rel)+":"+who+" -> "+n] = true
+				}
+			}
+		}
+		return nil
+	})
+	if err != nil {
+		return nil, err
+	}
+	out := SortedSet(set)
+	sort.Strings(out)
+	return out, nil
+}
+
+// c17Calls is Calls that also sees through generic instantiations (keeperutil.Load[*types.Job](...)).
+func c17Calls(n ast.Node, name string) []*ast.CallExpr {
+	var out []*ast.CallExpr
+	ast.Inspect(n, func(x ast.Node) bool {
+		ce, ok := x.(*ast.CallExpr)
+		if !ok {
+			return true
+		}
+		fun := ce.Fun
+		if ix, ok := fun.(*ast.IndexExpr); ok {
+			fun = ix.X
+		}
+		switch f := fun.(type) {
+		case *ast.SelectorExpr:
+			if f.Sel.Name == name {
+				out = append(out, ce)
+			}
+		case *ast.Ident:
+			if f.Name == name {
+				out = append(out, ce)
+			}
+		}
+		return true
+	})
+	return out
+}
+
+func c17CallArgs(c *Ctx, ce *ast.CallExpr) []string {
+	var out []string
+	for _, a := range ce.Args {
+		out = append(out, squash(c.Src(a)))
+	}
+	return out
+}
+
+func c17StructFields(f *ast.File, name string) []string {
+	var out []string
+	for _, d := range f.Decls {
+		gd, ok := d.(*ast.GenDecl)
+		if !ok {
+			continue
+		}
+		for _, s := range gd.Specs {
+			ts, ok := s.(*ast.TypeSpec)
+			if !ok || ts.Name.Name != name {
+				continue
+			}
+			if st, ok := ts.Type.(*ast.StructType); ok {
+				for _, fl := range st.Fields.List {
+					for _, n := range fl.Names {
+						out = append(out, n.Name)
+					}
+				}
+			}
+		}
+	}
+	return out
+}
+
+// Second part (round 2): every entry point that can create or run a job, genesis and block hooks,
+// the job-id key functions, the caller identity each entry point hands over, SendValsetMsgForChain.
+func extractC17Entry(c *Ctx, kf, bf *ast.File) error {
+	// ---------- who calls what, in the whole tree ----------
+	sites, err := c17CallSites(c, map[string]bool{"AddNewJob": true, "saveJob": true, "ScheduleNow": true, "ExecuteJob": true,
+		"PreJobExecution": true, "SendValsetMsgForChain": true, "jobsStore": true})
+	if err != nil {
+		return err
+	}
+	if len(sites) == 0 {
+		return fmt.Errorf("no call sites found: tree walk broken")
+	}
+	c.P("(* every function of the tree (tests, mocks, generated files, verif hooks excluded) that calls one of")
+	c.P("   AddNewJob / saveJob / ScheduleNow / ExecuteJob / PreJobExecution / SendValsetMsgForChain / jobsStore, by name *)")
+	c.P("Definition entry_points : list string := %s.", CoqStrList(sites))
+
+	// ---------- genesis and block hooks ----------
+	gf, err := c.Parse("x/scheduler/genesis.go")
+	if err != nil {
+		return err
+	}
+	for _, fn := range []string{"InitGenesis", "ExportGenesis"} {
+		fd := FindFunc(gf, "", fn)
+		if fd == nil {
+			return fmt.Errorf("scheduler %s not found", fn)
+		}
+		var calls []string
+		ast.Inspect(fd.Body, func(n ast.Node) bool {
+			if ce, ok := n.(*ast.CallExpr); ok {
+				calls = append(calls, squash(c.Src(ce)))
+			}
+			return true
+		})
+		c.P("Definition genesis_%s_calls : list string := %s.", strings.ToLower(strings.TrimSuffix(fn, "Genesis")), CoqStrList(calls))
+	}
+	gp, err := c.Parse("x/scheduler/types/genesis.pb.go")
+	if err != nil {
+		return err
+	}
+	gfields := c17StructFields(gp, "GenesisState")
+	if len(gfields) == 0 {
+		return fmt.Errorf("scheduler GenesisState not found")
+	}
+	c.P("Definition genesis_state_fields : list string := %s.", CoqStrList(gfields))
+	af, err := c.Parse("x/scheduler/abci.go")
+	if err != nil {
+		return err
+	}
+	var blockers []string
+	for _, fn := range []string{"BeginBlocker", "EndBlocker"} {
+		fd := FindFunc(af, "", fn)
+		if fd == nil {
+			return fmt.Errorf("scheduler %s not found", fn)
+		}
+		blockers = append(blockers, fmt.Sprintf("%s: %d statements", fn, len(fd.Body.List)))
+	}
+	mf, err := c.Parse("x/scheduler/module.go")
+	if err != nil {
+		return err
+	}
+	for _, fn := range []string{"BeginBlock", "EndBlock"} {
+		fd := FindFunc(mf, "AppModule", fn)
+		if fd == nil {
+			return fmt.Errorf("scheduler AppModule.%s not found", fn)
+		}
+		var body []string
+		for _, st := range fd.Body.List {
+			body = append(body, squash(c.Src(st)))
+		}
+		blockers = append(blockers, "AppModule."+fn+": "+strings.Join(body, "; "))
+	}
+	c.P("Definition block_hooks : list string := %s.", CoqStrList(blockers))
+
+	// ---------- the job id: duplicate check, store key, lookups ----------
+	keyOf := func(fn, callee string, argIdx int) (string, error) {
+		fd := FindFunc(kf, "Keeper", fn)
+		if fd == nil {
+			return "", fmt.Errorf("%s not found", fn)
+		}
+		cs := c17Calls(fd.Body, callee)
+		if len(cs) != 1 || len(cs[0].Args) <= argIdx {
+			return "", fmt.Errorf("%s: expected exactly one %s call", fn, callee)
+		}
+		return squash(c.Src(cs[0].Args[argIdx])), nil
+	}
+	var idk []string
+	for _, q := range []struct {
+		fn, callee string
+		idx        int
+	}{{"JobIDExists", "Has", 0}, {"saveJob", "Save", 2}, {"GetJob", "Load", 2}, {"AddNewJob", "JobIDExists", 1}, {"ExecuteJob", "GetJob", 1}, {"ScheduleNow", "GetJob", 1}, {"ExecuteJob", "ScheduleNow", 1}} {
+		k, err := keyOf(q.fn, q.callee, q.idx)
+		if err != nil {
+			return err
+		}
+		idk = append(idk, q.fn+": "+q.callee+"("+k+")")
+	}
+	jf, err := c.Parse("x/scheduler/types/job.pb.go")
+	if err != nil {
+		return err
+	}
+	gid := FindFunc(jf, "Job", "GetID")
+	if gid == nil {
+		return fmt.Errorf("Job.GetID not found")
+	}
+	var rets []string
+	ast.Inspect(gid.Body, func(n ast.Node) bool {
+		if r, ok := n.(*ast.ReturnStmt); ok && len(r.Results) == 1 {
+			rets = append(rets, squash(c.Src(r.Results[0])))
+		}
+		return true
+	})
+	idk = append(idk, "Job.GetID: return "+strings.Join(rets, " | "))
+	c.P("(* the id the duplicate check, the store key and the lookups use: the submitted string, untransformed *)")
+	c.P("Definition job_id_keys : list string := %s.", CoqStrList(idk))
+
+	// ---------- caller identity per entry point ----------
+	xf, err := c.Parse("x/scheduler/keeper/msg_server_execute_job.go")
+	if err != nil {
+		return err
+	}
+	xj := FindFunc(xf, "msgServer", "ExecuteJob")
+	creator := ""
+	ast.Inspect(xj.Body, func(n ast.Node) bool {
+		as, ok := n.(*ast.AssignStmt)
+		if ok && len(as.Lhs) == 2 && c.Src(as.Lhs[0]) == "creator" && len(as.Rhs) == 1 {
+			creator = squash(c.Src(as.Rhs[0]))
+		}
+		return true
+	})
+	c.P("Definition msgserver_creator : string := %s.", CoqStr(creator))
+	be := FindFunc(bf, "customMessenger", "executeJob")
+	readsSender := false
+	ast.Inspect(be.Body, func(n ast.Node) bool {
+		if se, ok := n.(*ast.SelectorExpr); ok && se.Sel.Name == "Sender" {
+			readsSender = true
+		}
+		return true
+	})
+	c.P("Definition binding_reads_message_sender : bool := %v.", readsSender)
+	bd := FindFunc(bf, "customMessenger", "DispatchMsg")
+	if bd == nil {
+		return fmt.Errorf("customMessenger.DispatchMsg not found")
+	}
+	var disp []string
+	for _, n := range []string{"createJob", "executeJob"} {
+		for _, ce := range Calls(bd.Body, n) {
+			disp = append(disp, n+"("+strings.Join(c17CallArgs(c, ce), ", ")+")")
+		}
+	}
+	c.P("Definition binding_dispatch : list string := %s.", CoqStrList(disp))
+	bcj := FindFunc(bf, "customMessenger", "createJob")
+	if bcj == nil {
+		return fmt.Errorf("customMessenger.createJob not found")
+	}
+	nm := Calls(bcj.Body, "NewMsgCreateJob")
+	if len(nm) != 1 {
+		return fmt.Errorf("customMessenger.createJob: NewMsgCreateJob call not recognised")
+	}
+	c.P("Definition binding_create_msg : string := %s.", CoqStr(squash(c.Src(nm[0]))))
+	lf, err := c.Parse("x/scheduler/bindings/legacy.go")
+	if err != nil {
+		return err
+	}
+	ld := FindFunc(lf, "customLegacyMessenger", "DispatchMsg")
+	if ld == nil {
+		return fmt.Errorf("customLegacyMessenger.DispatchMsg not found")
+	}
+	lc := Calls(ld.Body, "ExecuteJob")
+	if len(lc) != 1 {
+		return fmt.Errorf("legacy DispatchMsg: keeper call not recognised")
+	}
+	c.P("Definition legacy_execute_args : list string := %s.", CoqStrList(c17CallArgs(c, lc[0])[1:]))
+	c.P("Definition legacy_message_fields : list string := %s.", CoqStrList(c17StructFields(lf, "executeJobWasmEvent")))
+	rf, err := c.Parse("util/libwasm/plugin.go")
+	if err != nil {
+		return err
+	}
+	rd := FindFunc(rf, "router", "DispatchMsg")
+	if rd == nil {
+		return fmt.Errorf("libwasm router.DispatchMsg not found")
+	}
+	var routes []string
+	for _, ce := range Calls(rd.Body, "DispatchMsg") {
+		if r := squash(c.Src(ce)); strings.HasPrefix(r, "h.scheduler.") || strings.HasPrefix(r, "h.legacyFallback.") {
+			routes = append(routes, r)
+		}
+	}
+	if len(routes) != 2 {
+		return fmt.Errorf("libwasm router: scheduler / legacy routes not recognised")
+	}
+	c.P("(* util/libwasm: the dispatching contract's address is handed on unchanged *)")
+	c.P("Definition router_dispatch : list string := %s.", CoqStrList(routes))
+	apf, err := c.Parse("app/app.go")
+	if err != nil {
+		return err
+	}
+	nAnte := 0
+	ast.Inspect(apf, func(n ast.Node) bool {
+		if ce, ok := n.(*ast.CallExpr); ok {
+			if se, ok := ce.Fun.(*ast.SelectorExpr); ok && se.Sel.Name == "NewVerifyAuthorisedSignatureDecorator" {
+				nAnte++
+			}
+		}
+		return true
+	})
+	c.P("Definition ante_checks_creator_authorisation : bool := %v.", nAnte == 1)
+
+	// ---------- SendValsetMsgForChain ----------
+	ek, err := c.Parse("x/evm/keeper/keeper.go")
+	if err != nil {
+		return err
+	}
+	sv := FindFunc(ek, "msgSender", "SendValsetMsgForChain")
+	if sv == nil {
+		return fmt.Errorf("SendValsetMsgForChain not found")
+	}
+	var loop *ast.RangeStmt
+	var shape []string
+	for _, st := range sv.Body.List {
+		if rs, ok := st.(*ast.RangeStmt); ok {
+			if loop != nil {
+				return fmt.Errorf("SendValsetMsgForChain: more than one loop")
+			}
+			loop = rs
+			shape = append(shape, "for "+squash(c.Src(rs.X)))
+			continue
+		}
+		if len(Calls(st, "PutMessageInQueue")) > 0 {
+			if loop == nil {
+				return fmt.Errorf("SendValsetMsgForChain: put before the loop")
+			}
+			shape = append(shape, "put")
+		}
+		if len(Calls(st, "GetMessagesFromQueue")) > 0 {
+			shape = append(shape, "read "+squash(c.Src(Calls(st, "GetMessagesFromQueue")[0].Args[1])))
+		}
+	}
+	if loop == nil {
+		return fmt.Errorf("SendValsetMsgForChain: loop not found")
+	}
+	var inLoop []string
+	var walk func(list []ast.Stmt)
+	walk = func(list []ast.Stmt) {
+		for _, st := range list {
+			is, ok := st.(*ast.IfStmt)
+			if !ok {
+				continue
+			}
+			cond := squash(c.Src(is.Cond))
+			if is.Init != nil {
+				cond = squash(c.Src(is.Init)) + "; " + cond
+			}
+			if strings.Contains(cond, "err != nil") && !strings.Contains(cond, "DeleteJob") {
+				continue
+			}
+			last := ""
+			if n := len(is.Body.List); n > 0 {
+				last = squash(c.Src(is.Body.List[n-1]))
+			}
+			if strings.HasPrefix(last, "return") {
+				inLoop = append(inLoop, cond+" => "+last)
+			} else {
+				inLoop = append(inLoop, cond+" =>")
+				walk(is.Body.List)
+			}
+		}
+		for _, st := range list {
+			if as, ok := st.(*ast.AssignStmt); ok && len(Calls(as, "DeleteJob")) == 1 {
+				inLoop = append(inLoop, squash(c.Src(Calls(as, "DeleteJob")[0])))
+			}
+		}
+	}
+	walk(loop.Body.List)
+	c.P("(* x/evm/keeper/keeper.go: SendValsetMsgForChain *)")
+	c.P("Definition send_valset_shape : list string := %s.", CoqStrList(shape))
+	c.P("Definition send_valset_loop : list string := %s.", CoqStrList(inLoop))
+	c.Info("entry_points", sites)
 	return nil
 }
